@@ -138,6 +138,13 @@ def k_wrap(x, lo, hi):
     r = hi - lo
     if r == 0:
         return lo
+    from fractions import Fraction
+    d = (Fraction(x) - Fraction(lo)) % Fraction(r)
+    if d != 0 and min(d, Fraction(r) - d) < Fraction(r) / 10 ** 9:
+        # so close to a multiple of the range (a tiny fraction of it away)
+        # that adding the range absorbs x: which side of the discontinuity
+        # float arithmetic lands on belongs to the numeric kernels (C15)
+        raise Undecided('wrap at rounding distance from its discontinuity')
     return x - r * math.floor((x - lo) / r)
 
 
